@@ -377,3 +377,12 @@ Definition flat_list_case (c : cfg) (groups : list group_entry) (e : any_entry) 
   if kept then [(if leaf_ignored c options then 1 else 2, path)] else [].
 Definition flat_list (c : cfg) (benches : list bench_entry) (groups : list group_entry) :=
   flat_map (flat_list_case c groups) (all_entries benches groups).
+
+(** * Which action the command line selects ([Divan::config_with_args], divan.rs:523-544,
+    and the clap declaration in cli.rs: [--test] and [--list] conflict).
+    [terse]: a [--format terse] value was accepted, which requires [NEXTEST=1] and [--list]. *)
+Definition action_of_flags (list test bench terse : bool) : option act :=
+  if list && test then None                       (* clap rejects the command line: nothing runs *)
+  else if list then Some (if terse then ListTerse else List)
+  else if test || negb bench then Some Test
+  else Some Bench.
